@@ -141,10 +141,8 @@ def run(tier, t0):
     seeds = 2 if tier == "quick" else 25
     for p in runner.parallel("vf.props.c04", "ball_work", [(s, seeds, runner.SEED) for s in range(runner.NPROC)]):
         part.merge(p)
-    fuzz_note = "atheris campaign not part of this tier"
-    if tier == "thorough":
-        from ..fuzz import driver
-        fuzz_note = driver.campaign(part, "accept", runs=400000)
+    from ..fuzz import driver
+    fuzz_note = driver.campaign(part, "accept", runs=240000 if tier == "quick" else 8000000)
     rule = ("strings from: valid vectors (any spelling), 1..3 stacked mutation operators (char insert/delete/replace, "
             "field drop/duplicate/swap/transplant/empty, mandatory-field drop, prefix surgery, case, foreign values), "
             "cross-version vectors, arbitrary text; plus complete one-edit neighbourhoods of seed vectors (shortest, "
@@ -153,7 +151,7 @@ def run(tier, t0):
             "by 64-bit hash for Hypothesis cases, ball members counted per string")
     required = ["v%s:%s" % (v, k) for v in spec.VKEYS for k in (ref.OK, ref.MALFORMED, ref.MANDATORY)]
     required += ["ball:v%s:%s" % (v, k) for v in spec.VKEYS for k in (ref.OK, ref.MALFORMED, ref.MANDATORY)]
-    required += ["mut:" + o for o in gen.OPS] + ["text", "valid", "cross-version"]
+    required += ["mut:" + o for o in gen.OPS] + ["text", "valid", "cross-version", "atheris-execs:accept"]
     return runner.finish(
         part, tier, t0, rule,
         ["reference acceptor vf/ref.py with metric tables typed from the specifications (value sets are frozensets)",
